@@ -188,7 +188,21 @@ void DOMElementNSImpl::release()
 
 DOMNode* DOMElementNSImpl::rename(const XMLCh* namespaceURI, const XMLCh* name)
 {
-    setName(namespaceURI, name);
+    // setName() throws for a malformed name: the node must then be unchanged
+    const XMLCh* oldName = fName;
+    const XMLCh* oldNamespaceURI = fNamespaceURI;
+    const XMLCh* oldLocalName = fLocalName;
+    const XMLCh* oldPrefix = fPrefix;
+    try {
+        setName(namespaceURI, name);
+    }
+    catch (...) {
+        fName = oldName;
+        fNamespaceURI = oldNamespaceURI;
+        fLocalName = oldLocalName;
+        fPrefix = oldPrefix;
+        throw;
+    }
     fAttributes->reconcileDefaultAttributes(getDefaultAttributes());
     // and fire user data NODE_RENAMED event
     castToNodeImpl(this)->callUserDataHandlers(DOMUserDataHandler::NODE_RENAMED, this, this);
